@@ -112,6 +112,79 @@ type IgOnly struct {
 	T uint64 `rlp:"-"`
 }
 
+// Pointers to every kind in every position (RLPSchemas: PtrPlain, PtrNil, PtrNilS, PtrNilL, PtrOpt).
+type PtrPlain struct {
+	B   *bool
+	U8  *uint8
+	U16 *uint16
+	U32 *uint32
+	U64 *uint64
+	Big *big.Int
+	S   *string
+	A   *[2]byte
+	Y   *[]byte
+	St  *Inner
+	L   *[]uint64
+}
+type PtrNil struct {
+	B   *bool     `rlp:"nil"`
+	U8  *uint8    `rlp:"nil"`
+	U16 *uint16   `rlp:"nil"`
+	U32 *uint32   `rlp:"nil"`
+	U64 *uint64   `rlp:"nil"`
+	Big *big.Int  `rlp:"nil"`
+	S   *string   `rlp:"nil"`
+	A   *[2]byte  `rlp:"nil"`
+	Y   *[]byte   `rlp:"nil"`
+	St  *Inner    `rlp:"nil"`
+	L   *[]uint64 `rlp:"nil"`
+}
+type PtrNilS struct {
+	B   *bool     `rlp:"nilString"`
+	U8  *uint8    `rlp:"nilString"`
+	U16 *uint16   `rlp:"nilString"`
+	U32 *uint32   `rlp:"nilString"`
+	U64 *uint64   `rlp:"nilString"`
+	Big *big.Int  `rlp:"nilString"`
+	S   *string   `rlp:"nilString"`
+	A   *[2]byte  `rlp:"nilString"`
+	Y   *[]byte   `rlp:"nilString"`
+	St  *Inner    `rlp:"nilString"`
+	L   *[]uint64 `rlp:"nilString"`
+}
+type PtrNilL struct {
+	B   *bool     `rlp:"nilList"`
+	U8  *uint8    `rlp:"nilList"`
+	U16 *uint16   `rlp:"nilList"`
+	U32 *uint32   `rlp:"nilList"`
+	U64 *uint64   `rlp:"nilList"`
+	Big *big.Int  `rlp:"nilList"`
+	S   *string   `rlp:"nilList"`
+	A   *[2]byte  `rlp:"nilList"`
+	Y   *[]byte   `rlp:"nilList"`
+	St  *Inner    `rlp:"nilList"`
+	L   *[]uint64 `rlp:"nilList"`
+}
+type PtrOpt struct {
+	N   uint64
+	B   *bool     `rlp:"optional"`
+	U8  *uint8    `rlp:"optional"`
+	U16 *uint16   `rlp:"optional"`
+	U32 *uint32   `rlp:"optional"`
+	U64 *uint64   `rlp:"optional"`
+	Big *big.Int  `rlp:"optional"`
+	S   *string   `rlp:"optional"`
+	A   *[2]byte  `rlp:"optional"`
+	Y   *[]byte   `rlp:"optional"`
+	St  *Inner    `rlp:"optional"`
+	L   *[]uint64 `rlp:"optional"`
+}
+type PtrB struct {
+	N      uint64
+	Active *bool
+	Name   string
+}
+
 // fullTypes: struct types whose abstract values list every Go field (see above).
 var fullTypes = map[reflect.Type]bool{
 	reflect.TypeOf(IgA{}): true, reflect.TypeOf(IgB{}): true, reflect.TypeOf(IgT{}): true, reflect.TypeOf(IgN{}): true,
@@ -183,6 +256,10 @@ var schemaTypes = map[string]reflect.Type{
 	"ArrU":   reflect.TypeOf(ArrU{}),
 	"IgA":    reflect.TypeOf(IgA{}), "IgB": reflect.TypeOf(IgB{}), "IgT": reflect.TypeOf(IgT{}), "IgN": reflect.TypeOf(IgN{}),
 	"OptIn": reflect.TypeOf(OptIn{}), "IgE": reflect.TypeOf(IgE{}), "OnlyOpt": reflect.TypeOf(OnlyOpt{}), "IgOnly": reflect.TypeOf(IgOnly{}),
+	"pbool": reflect.TypeOf((*bool)(nil)), "pu16": reflect.TypeOf((*uint16)(nil)), "pstr": reflect.TypeOf((*string)(nil)), "pInner": reflect.TypeOf((*Inner)(nil)),
+	"PtrPlain": reflect.TypeOf(PtrPlain{}), "PtrNil": reflect.TypeOf(PtrNil{}), "PtrNilS": reflect.TypeOf(PtrNilS{}), "PtrNilL": reflect.TypeOf(PtrNilL{}),
+	"PtrOpt": reflect.TypeOf(PtrOpt{}), "PtrB": reflect.TypeOf(PtrB{}),
+	"SU64": reflect.TypeOf([]uint64(nil)), "SArr32": reflect.TypeOf([][32]byte(nil)), "SPtr": reflect.TypeOf([]*Inner(nil)), "SBig": reflect.TypeOf([]*big.Int(nil)),
 	// chain types that the generic machinery can handle directly
 	"account":   reflect.TypeOf(types.StateAccount{}),
 	"slim":      reflect.TypeOf(types.SlimAccount{}),
